@@ -73,6 +73,7 @@ def rule_order(an, res, prop, containers):
             for top in method_segments(an, cm, roles, m, res):
                 for b in ops.find_bodies(top, m):
                     check_body(res, prop, cm, roles, m, k, b)
+                    check_fifo_unbind(res, prop, cm, roles, m, b.seg)
                     if k == 'INSERT' and cm.name in TTL_CACHES:
                         # "same victim whenever nothing has expired" needs the head-expired test to read true deadlines
                         from rules_ttl import check_refile
@@ -182,6 +183,29 @@ def check_body(res, prop, cm, roles, m, k, b):
         res.ob('R-WHO-MOVES', ok=not others)
         if others:
             V(res, prop, 'R-WHO-MOVES', cm, b.where, 'a node other than the removed entry is moved', moves[0].site, 'moved: %r [%s]' % (others, val))
+
+
+def check_fifo_unbind(res, prop, cm, roles, m, seg):
+    """fifo: a node whose key is erased (and that is not immediately re-bound) must have its optional back-pointer cleared: the next
+    insert decides by has_value() whether the recycled node still owns an index entry"""
+    if roles.name != 'fifo_cache':
+        return
+    binds = seg.effs('BIND')
+    for u in seg.effs('UNBIND'):
+        rebound = any(same_ent(b.ent, u.ent) for b in binds)
+        if rebound:
+            continue
+        cleared = False
+        for e in seg.effects:
+            if e.kind == 'BACKPTR' and same_ent(e.ent, u.ent) and e.val in (('global', 'nullopt'),) and seg.effects.index(e) > seg.effects.index(u):
+                cleared = True
+            if e.kind == 'BACKPTR' and same_ent(e.ent, u.ent) and isinstance(e.val, tuple) and e.val[0] == 'ctor' and not e.val[2]:
+                cleared = True
+        res.ob('R-FIFO-UNBIND', ok=cleared)
+        if not cleared:
+            V(res, prop, 'R-FIFO-UNBIND', cm, where_of(m, seg), 'erased node keeps its (now dangling) index iterator', u.site,
+              'path [%s]: the node\'s optional key position is not reset after its index entry was erased; the next insert recycling this '
+              'node erases through the stale iterator and mis-counts the size' % ' '.join(seg.valuation()))
 
 
 def check_clean_and_other(an, res, prop, cm, roles):
